@@ -55,6 +55,15 @@ impl Sk {
             Sk::Block(l) => l.iter().map(|s| s.conds()).sum(),
         }
     }
+    pub fn fors(&self) -> usize {
+        match self {
+            Sk::Atom => 0,
+            Sk::If(t, e) => t.fors() + e.as_ref().map(|e| e.fors()).unwrap_or(0),
+            Sk::While(b) => b.fors(),
+            Sk::For(b) => 1 + b.fors(),
+            Sk::Block(l) => l.iter().map(|s| s.fors()).sum(),
+        }
+    }
     pub fn loops(&self) -> usize {
         match self {
             Sk::Atom => 0,
@@ -88,6 +97,12 @@ impl SkBody {
         match self {
             SkBody::Braced(l) => l.iter().map(|s| s.loops()).sum(),
             SkBody::Bare(s) => s.loops(),
+        }
+    }
+    pub fn fors(&self) -> usize {
+        match self {
+            SkBody::Braced(l) => l.iter().map(|s| s.fors()).sum(),
+            SkBody::Bare(s) => s.fors(),
         }
     }
 }
